@@ -251,3 +251,72 @@ Section Stitched.
   Proof. intros Hf Hj x i H. eapply is_derive_ext; [|exact H].
     intros t. simpl. unfold x, i. now rewrite stitched_perturb. Qed.
 End Stitched.
+
+(* ------------------------------------------------------------------------------------------ *)
+(* (5) the rate model meets the dual-number theorem: for cells without histosys pieces the rate of a bin is a
+   + * expression of the parameters, so the second component of rate_dual is its partial derivative.
+   (cells with histosys pieces additionally need the derivative of the interpolation code in the regime the
+   comparison selects - property C03 - and are covered by the correspondence only: hence `_partial`.) *)
+Local Open Scope R_scope.
+Fixpoint prod_expr (idx : list nat) : expr R :=
+  match idx with [] => EConst 1 | i :: r => EMul (EVar i) (prod_expr r) end.
+Definition cell_expr (c : cell RNum) : expr R := EMul (EConst (c_nom RNum c)) (prod_expr (c_fac RNum c)).
+Fixpoint bin_expr (cells : list (cell RNum)) : expr R :=
+  match cells with [] => EConst 0 | c :: r => EAdd (cell_expr c) (bin_expr r) end.
+Definition plain (c : cell RNum) : Prop := c_hs RNum c = [].
+
+Lemma prod_expr_R x idx : evalR (par RNum x) (prod_expr idx) = prod_par RNum x idx.
+Proof. induction idx as [|i r IH]; simpl; [reflexivity|]. unfold evalR in *. simpl. f_equal. exact IH. Qed.
+Lemma bin_expr_R x cells : List.Forall plain cells -> evalR (par RNum x) (bin_expr cells) = bin_rate RNum x cells.
+Proof. induction 1 as [|c r Hc Hr IH]; simpl; [reflexivity|]. unfold evalR in *. simpl. f_equal; [|exact IH].
+  unfold cell_rate. rewrite Hc. simpl. f_equal. apply prod_expr_R. Qed.
+
+Lemma prod_expr_D (xd : list (R * R)) idx :
+  eval (DualNum RNum) (fun c => (c, 0)) (par (DualNum RNum) xd) (prod_expr idx) = prod_par (DualNum RNum) xd idx.
+Proof. induction idx as [|i r IH]; simpl; [reflexivity|]. f_equal. exact IH. Qed.
+Lemma bin_expr_D (xd : list (R * R)) cells : List.Forall plain cells ->
+  eval (DualNum RNum) (fun c => (c, 0)) (par (DualNum RNum) xd) (bin_expr cells) = bin_rate (DualNum RNum) xd (map (inj_cell RNum) cells).
+Proof. induction 1 as [|c r Hc Hr IH]; simpl; [reflexivity|]. f_equal; [|exact IH].
+  unfold cell_rate. simpl. rewrite Hc. simpl. f_equal. apply prod_expr_D. Qed.
+
+(* the point moved by t along coordinate j, and the seeded dual point *)
+Fixpoint moved_from (i j : nat) (t : R) (x : list R) : list R :=
+  match x with [] => [] | v :: r => (v + t * (if Nat.eqb i j then 1 else 0)) :: moved_from (S i) j t r end.
+Definition dirj (x : list R) (j i : nat) : R := if Nat.eqb i j then (if Nat.ltb i (length x) then 1 else 0) else 0.
+
+Lemma par_moved x j t : forall s i, par RNum (moved_from s j t x) i = par RNum x i + t * (if Nat.eqb (s + i) j then (if Nat.ltb i (length x) then 1 else 0) else 0).
+Proof. induction x as [|v x IH]; intros s i.
+  - unfold par; simpl. destruct i; destruct (Nat.eqb _ j); simpl; ring.
+  - destruct i as [|i].
+    + unfold par; simpl. rewrite Nat.add_0_r. destruct (Nat.eqb s j); ring.
+    + change (par RNum (moved_from s j t (v :: x)) (S i)) with (par RNum (moved_from (S s) j t x) i).
+      change (par RNum (v :: x) (S i)) with (par RNum x i). rewrite (IH (S s) i).
+      replace (S s + i)%nat with (s + S i)%nat by lia.
+      change (Nat.ltb (S i) (length (v :: x))) with (Nat.ltb i (length x)). reflexivity. Qed.
+Lemma par_seed x j : forall s i, par (DualNum RNum) (seed_from RNum s j x) i
+  = (par RNum x i, if Nat.eqb (s + i) j then (if Nat.ltb i (length x) then 1 else 0) else 0).
+Proof. induction x as [|v x IH]; intros s i.
+  - unfold par; simpl. destruct i; simpl; repeat match goal with |- context [if ?b then _ else _] => destruct b end; reflexivity.
+  - destruct i as [|i].
+    + unfold par; simpl. rewrite Nat.add_0_r. destruct (Nat.eqb s j); reflexivity.
+    + change (par (DualNum RNum) (seed_from RNum s j (v :: x)) (S i)) with (par (DualNum RNum) (seed_from RNum (S s) j x) i).
+      change (par RNum (v :: x) (S i)) with (par RNum x i). rewrite (IH (S s) i).
+      replace (S s + i)%nat with (s + S i)%nat by lia.
+      change (Nat.ltb (S i) (length (v :: x))) with (Nat.ltb i (length x)). reflexivity. Qed.
+
+Lemma eval_ext {C} N (inj : C -> V N) env env' (e : expr C) : (forall i, env i = env' i) -> eval N inj env e = eval N inj env' e.
+Proof. intros H. induction e; simpl; auto; try (now rewrite IHe1, IHe2); now rewrite IHe. Qed.
+Lemma plain_defined env cells : defined env (bin_expr cells).
+Proof. assert (P : forall idx, defined env (prod_expr idx)) by (induction idx; simpl; auto).
+  induction cells; simpl; auto; repeat split; auto. Qed.
+
+Theorem rate_dual_is_derivative_partial x j cells : List.Forall plain cells ->
+  fst (rate_dual RNum x j cells) = bin_rate RNum x cells /\
+  is_derive (fun t => bin_rate RNum (moved_from 0 j t x) cells) 0 (snd (rate_dual RNum x j cells)).
+Proof. intros Hp. unfold rate_dual. rewrite <- (bin_expr_D _ cells Hp).
+  rewrite (eval_ext (DualNum RNum) _ _ (fun i => (par RNum x i, dirj x j i))) by (intros i; rewrite par_seed; reflexivity).
+  split; [exact (eq_trans (evalD_value (par RNum x) (dirj x j) (bin_expr cells)) (bin_expr_R x cells Hp))|].
+  eapply is_derive_ext; [|exact (dual_is_derivative (par RNum x) (dirj x j) (bin_expr cells) (plain_defined _ _))].
+  intros t. simpl. rewrite <- (bin_expr_R _ cells Hp). unfold evalR.
+  apply (eval_ext RNum (fun c : R => c) _ _ (bin_expr cells)).
+  intros i. rewrite (par_moved x j t 0 i). reflexivity. Qed.
